@@ -121,10 +121,13 @@ structure PlanFacts (hashOf : List β → H) (lg : List (LBackup β)) (t : Nat) 
   missing : p.missingFiles = []
 
 /-- **Execution.**  Carrying out such a plan on the rendered group ends with exit status 0 and the tree of the
-target backup, node for node. -/
-theorem exec_ok (hashOf : List β → H) (lg : List (LBackup β)) (t : Nat) (lt : LBackup β) (hlt : lg[t]? = some lt)
+target backup, node for node.  (`group`: any stored group whose backups, as far as `lg` describes them, are the
+rendered ones; what follows them is arbitrary.) -/
+theorem exec_ok (hashOf : List β → H) (lg : List (LBackup β)) (group : List (Backup H β))
+    (hG : ∀ (j : Nat) (lb : LBackup β), lg[j]? = some lb → group[j]? = some (render hashOf lb))
+    (t : Nat) (lt : LBackup β) (hlt : lg[t]? = some lt)
     (p : Plan H) (pf : PlanFacts hashOf lg t lt p) :
-    ∃ st, runSteps hashOf (lg.map (render hashOf)) p.steps true
+    ∃ st, runSteps hashOf group p.steps true
         ({ ok := true, pending := p.externFiles, missing := p.missingFiles } : RSt β) = some st ∧
       ∃ fs, applyMeta st.pending st.scheduled.reverse st.fs = some fs ∧
         (st.ok && st.pending.isEmpty && st.preCreated.isEmpty) = true ∧
@@ -132,8 +135,7 @@ theorem exec_ok (hashOf : List β → H) (lg : List (LBackup β)) (t : Nat) (lt 
   obtain ⟨F0, rest, hsteps, ctx, hrest, hext⟩ := pf.steps
   rw [pf.missing]
   have wf := ctx.wf
-  have hgrp : (lg.map (render hashOf))[t]? = some (render hashOf lt) := by
-    rw [List.getElem?_map, hlt]; rfl
+  have hgrp : group[t]? = some (render hashOf lt) := hG _ _ hlt
   -- the target step
   obtain ⟨st1, seen1, h1, inv1⟩ := target_entries hashOf lt.stored lt.es F0 p.externFiles ctx lt.es [] _ [] rfl
     (tinv_init lt.stored lt.es F0 p.externFiles ctx.extNodup)
@@ -153,7 +155,7 @@ theorem exec_ok (hashOf : List β → H) (lg : List (LBackup β)) (t : Nat) (lt 
   -- the later steps
   have hnodup : (F0.flatMap (fun kv => kv.2.paths.dropLast) ++ rest.flatMap (fun s => s.files.flatMap (·.2.paths))).Nodup := by
     rw [← hext]; exact ctx.extNodup
-  obtain ⟨st2, h2, inv2⟩ := later_steps hashOf lt.stored lt.es wf p.externFiles lg F0 rest hrest hnodup rest [] st1 rfl
+  obtain ⟨st2, h2, inv2⟩ := later_steps hashOf lt.stored lt.es wf p.externFiles lg group hG F0 rest hrest hnodup rest [] st1 rfl
     (sinv1.congr (fun q => by simp [DoneS]))
   refine ⟨st2, by rw [hsteps]; simp only [runSteps, hgrp, hstep1, h2], ?_⟩
   -- everything extern has been written
